@@ -329,7 +329,7 @@ fn grid_b(idx: u64, specs: &[NodeSpec], starts: &[u64], cyc: &[(Input, Fault)]) 
     let shape = (idx % 4) as usize;
     if s > 24 {
         // long clean prefixes as one generated stream op keeps the scenario small
-        ops.push(Op::Gen { n: 0, g: StreamDesc { regime: [Regime::Up, Regime::Down, Regime::Few, Regime::Flat][shape], level: crate::sut::Fx(10.0), saw: 3, seed: 7 }, skip: 0, len: s as u64, fault: None, every: 0, reset_every: 0 });
+        ops.push(Op::Gen { n: 0, g: StreamDesc { regime: [Regime::Up, Regime::Down, Regime::Few, Regime::Flat][shape], level: crate::sut::Fx(10.0), saw: 3, seed: 7 }, skip: 0, len: s as u64, fault: None, every: 0, reset_every: 0, clone_every: 0 });
     } else {
         for j in 0..s {
             ops.push(Op::Feed { n: 0, x: clean_tick(j, shape), f: Fault::Clean });
@@ -388,7 +388,7 @@ pub fn generate(rng: &mut Rng, tier: Tier) -> Scenario {
             Tier::Thorough => rng.range(70_000, 400_000) as u64,
         };
         let fault = if rng.chance(0.5) { Some(*rng.pick(&world::VALUE_FAULTS)) } else { None };
-        ops.push(Op::Gen { n: 0, g: World::random_desc(rng), skip: 0, len: total, fault, every: if fault.is_some() { rng.range(2, 5000) as u64 } else { 0 }, reset_every: if rng.chance(0.3) { rng.range(1, 30_000) as u64 } else { 0 } });
+        ops.push(Op::Gen { n: 0, g: World::random_desc(rng), skip: 0, len: total, fault, every: if fault.is_some() { rng.range(2, 5000) as u64 } else { 0 }, reset_every: if rng.chance(0.3) { rng.range(1, 30_000) as u64 } else { 0 }, clone_every: 0 });
     }
     while fed < len {
         buf.clear();
